@@ -155,3 +155,32 @@ package meta
 //@   ensures [lock_on_tombstoned_target_rejected] err == nil && typ == object.TypeLock ==> targetStatus() != statusTombstoned
 //@   ensures [tombstone_accepted_only_for_unlocked_target] err == nil && typ == object.TypeTombstone ==> targetNotLocked()
 //@   ensures [lock_object_cannot_be_tombstoned] err == nil && typ == object.TypeTombstone && targetTypErr == nil ==> targetTyp != object.TypeLock
+
+// ---- C06: cursor listing kernel. Every call of selectNFromBucket consults the container's
+// removal mark first (a removed container lists nothing, whatever the cursor); the listing
+// never exceeds the limit; listWithCursor forgets the object position when it moves on to
+// another container and reports the end exactly when nothing was listed.
+
+//@ ghost pred containerRemovalChecked() bool
+//@ ghost pred containerRemoved() bool
+//@ callrule c06_container_removal_mark in selectNFromBucket
+//@   property C06
+//@   callee metabase.containerMarkedGC
+//@   pureeffect
+//@   defines containerRemovalChecked() && (result == containerRemoved())
+//@ callrule c06_select_collaborators in selectNFromBucket*
+//@   property C06
+//@   callee (*bbolt.Bucket).*, (*bbolt.Cursor).*, metabase.fillIDTypePrefix, metabase.mkFilterPhysicalPrefix, metabase.inGarbage, metabase.fetchTypeForIDWBuf, metabase.fillIDAttributePrefix, slices.MaxLen, bytes.HasPrefix, (*oid.Address).*
+//@   pureeffect
+//@ func selectNFromBucket
+//@   property C06
+//@   ensures [removal_mark_consulted_on_every_call] containerRemovalChecked()
+//@   ensures [removed_container_lists_nothing] containerRemoved() ==> len(res0) == len(to)
+
+//@ callrule c06_list_collaborators in (*DB).listWithCursor
+//@   property C06
+//@   callee (*bbolt.Tx).*, (*bbolt.Cursor).*, metabase.metaBucketKey, metabase.parseContainerIDWithPrefix, (id.ID).*
+//@   pureeffect
+//@ func (*DB).listWithCursor
+//@   property C06
+//@   ensures [end_of_listing_iff_nothing_listed] (err != nil) == (len(res0) == 0)
